@@ -70,8 +70,10 @@ def main(argv=None):
             args.no_evidence = True
         run, mod = analyse(prop, args.tier, args.root, overlay, args.only)
         vac = [] if args.only else run.vacuous()
-        if vac:
+        if vac and not run.violations() and not run.errors:
             raise sa_model.AnalysisError("instance count below the confirmed minimum: " + "; ".join(vac))
+        if run.errors and not run.violations():
+            raise sa_model.AnalysisError("; ".join(run.errors))
         audit = None
         if args.tier == "thorough" and not args.only:
             from sa.audit import runner as audit_runner
@@ -110,6 +112,8 @@ def main(argv=None):
     if args.verbose:
         for o in run.obligations:
             print("  %-9s %-28s %-60s %s" % (o.status, o.rule, o.construct[:60], (o.detail or "")[:120]))
+    for e in run.errors:
+        print("ANALYSIS-NOTE property=%s a rule could not decide: %s" % (prop, e))
     for k in reported_known:
         print("KNOWN-FINDING: property=%s %s" % (prop, k.get("what", k["key"])))
     if audit is not None:
